@@ -875,3 +875,238 @@ pub fn decode_from_worker(frame: &[u8]) -> Option<FromWorkerMessage> {
 pub fn encode_from_worker(msg: &FromWorkerMessage) -> Vec<u8> {
     serialize(msg).unwrap()
 }
+
+// ---------------------------------------------------------------------------------------------
+// Worker-query memo (Engine D: every autoalloc tick asks `ServerRef::new_worker_query`, a MILP
+// over fake workers; a rebuild-and-replay explorer repeats the same query on the same core
+// state thousands of times)
+// ---------------------------------------------------------------------------------------------
+
+struct QueryMemoEntry {
+    single_node_workers_per_query: Vec<u32>,
+    /// (worker_type, worker_per_allocation, max_allocations)
+    multi_node_allocations: Vec<(usize, u32, u32)>,
+    flag_after: bool,
+}
+
+struct QueryMemo {
+    table: Map<u128, QueryMemoEntry>,
+    hits: u64,
+    misses: u64,
+    audits: u64,
+    audit_every: u64,
+    audit_failures: u64,
+    solve_nanos: u64,
+}
+
+/// Shared by all explorer threads (the answer is a deterministic function of the key);
+/// whether it is consulted is a per-thread switch.
+static QUERY_MEMO: std::sync::Mutex<Option<QueryMemo>> = std::sync::Mutex::new(None);
+
+thread_local! {
+    static QUERY_MEMO_ENABLED: std::cell::Cell<bool> = const { std::cell::Cell::new(false) };
+}
+
+fn with_query_memo<R>(f: impl FnOnce(&mut QueryMemo) -> R) -> R {
+    let mut g = QUERY_MEMO.lock().unwrap_or_else(|e| e.into_inner());
+    let m = g.get_or_insert_with(|| QueryMemo {
+        table: Map::new(),
+        hits: 0,
+        misses: 0,
+        audits: 0,
+        audit_every: 256,
+        audit_failures: 0,
+        solve_nanos: 0,
+    });
+    f(m)
+}
+
+/// Switch the worker-query memo on or off for the calling thread. With the memo off
+/// `ServerRef::new_worker_query` is exactly the shipped function.
+pub fn set_query_memo(enabled: bool) {
+    QUERY_MEMO_ENABLED.with(|m| m.set(enabled));
+}
+
+/// Every `n`-th memo hit is recomputed by the shipped function and compared (0 = never).
+pub fn set_query_memo_audit(n: u64) {
+    with_query_memo(|m| m.audit_every = n);
+}
+
+pub(crate) fn query_memo_on() -> bool {
+    QUERY_MEMO_ENABLED.with(|m| m.get())
+}
+
+pub fn query_memo_stats() -> MemoStats {
+    with_query_memo(|m| MemoStats {
+        hits: m.hits,
+        misses: m.misses,
+        audits: m.audits,
+        audit_failures: m.audit_failures,
+        entries: m.table.len() as u64,
+        solve_ms: m.solve_nanos / 1_000_000,
+    })
+}
+
+/// What the worker query reads from a core without workers: per ready queue the request and
+/// the number of waiting tasks per priority level (the query counts tasks, it never looks at
+/// their ids), the registered requests and resource names, the id counters and the flag.
+#[allow(clippy::type_complexity)]
+fn query_demand_digest(
+    core: &Core,
+    flag: bool,
+) -> (Vec<(u32, Vec<(u64, usize)>, Option<(u64, usize)>)>, Vec<String>, Vec<String>, u32, bool, usize) {
+    let split = core.split();
+    let queues = split
+        .task_queues
+        .iter()
+        .map(|q| {
+            (
+                q.resource_rq_id.as_num(),
+                q.queue
+                    .iter()
+                    .map(|(p, ids)| {
+                        (
+                            priority_num(p.0),
+                            match ids {
+                                OneOrMoreTaskIds::One(_) => 1,
+                                OneOrMoreTaskIds::More(ts) => ts.len(),
+                            },
+                        )
+                    })
+                    .collect(),
+                q.prefill.as_ref().map(|(p, ts)| (priority_num(*p), ts.len())),
+            )
+        })
+        .collect();
+    let requests = core
+        .get_resource_rq_map()
+        .iter()
+        .map(|r| format!("{r:?}"))
+        .collect();
+    (
+        queues,
+        requests,
+        core.create_resource_map().into_vec(),
+        core.worker_counter(),
+        flag,
+        core.task_map().tasks().count(),
+    )
+}
+
+fn real_worker_query(
+    server: &ServerRef,
+    queries: &[crate::control::WorkerTypeQuery],
+) -> crate::Result<crate::control::NewWorkerAllocationResponse> {
+    // re-enter the shipped function with the memo switched off
+    set_query_memo(false);
+    let r = server.new_worker_query(queries);
+    set_query_memo(true);
+    r
+}
+
+fn entry_of(r: &crate::control::NewWorkerAllocationResponse, flag_after: bool) -> QueryMemoEntry {
+    QueryMemoEntry {
+        single_node_workers_per_query: r.single_node_workers_per_query.clone(),
+        multi_node_allocations: r
+            .multi_node_allocations
+            .iter()
+            .map(|m| (m.worker_type, m.worker_per_allocation, m.max_allocations))
+            .collect(),
+        flag_after,
+    }
+}
+
+/// Memoized `ServerRef::new_worker_query`. Key: the demand digest of the core (ready queues
+/// with task counts per priority, requests, resource names, id counters, scheduling flag)
+/// and the queries. Only
+/// consulted while the core has no workers (then the scheduling rounds the shipped function
+/// may run first cannot place anything); on a hit the side effects of the shipped function
+/// that outlive the call are re-done (validation, resource-name registration, scheduling
+/// flag). Every `audit_every`-th hit is recomputed by the shipped function and compared.
+pub(crate) fn memoized_worker_query(
+    server: &ServerRef,
+    queries: &[crate::control::WorkerTypeQuery],
+) -> crate::Result<crate::control::NewWorkerAllocationResponse> {
+    let has_workers = server.verif_core_ref().get().get_workers().next().is_some();
+    if has_workers {
+        return real_worker_query(server, queries);
+    }
+    for query in queries {
+        query.descriptor.validate(!query.partial)?;
+    }
+    let key = {
+        let core = server.verif_core_ref().get();
+        let flag = server.verif_comm_ref().get().get_scheduling_flag();
+        hash128(&(query_demand_digest(&core, flag), format!("{queries:?}")), 0x51)
+    };
+    let (cached, audit) = with_query_memo(|m| {
+        let r = m.table.get(&key).map(|e| QueryMemoEntry {
+            single_node_workers_per_query: e.single_node_workers_per_query.clone(),
+            multi_node_allocations: e.multi_node_allocations.clone(),
+            flag_after: e.flag_after,
+        });
+        if r.is_some() {
+            m.hits += 1;
+        } else {
+            m.misses += 1;
+        }
+        let audit = r.is_some() && m.audit_every > 0 && m.hits % m.audit_every == 0;
+        (r, audit)
+    });
+    match cached {
+        Some(e) if !audit => {
+            {
+                let mut core = server.verif_core_ref().get_mut();
+                for query in queries {
+                    for item in &query.descriptor.resources {
+                        core.get_or_create_resource_id(&item.name);
+                    }
+                }
+            }
+            if !e.flag_after {
+                server.verif_comm_ref().get_mut().reset_scheduling_flag();
+            }
+            Ok(crate::control::NewWorkerAllocationResponse {
+                single_node_workers_per_query: e.single_node_workers_per_query,
+                multi_node_allocations: e
+                    .multi_node_allocations
+                    .into_iter()
+                    .map(|(worker_type, worker_per_allocation, max_allocations)| {
+                        crate::gateway::MultiNodeAllocationResponse {
+                            worker_type,
+                            worker_per_allocation,
+                            max_allocations,
+                        }
+                    })
+                    .collect(),
+            })
+        }
+        Some(e) => {
+            let fresh = real_worker_query(server, queries)?;
+            let flag_after = server.verif_comm_ref().get().get_scheduling_flag();
+            let f = entry_of(&fresh, flag_after);
+            let same = f.single_node_workers_per_query == e.single_node_workers_per_query
+                && f.multi_node_allocations == e.multi_node_allocations
+                && f.flag_after == e.flag_after;
+            with_query_memo(|m| {
+                m.audits += 1;
+                if !same {
+                    m.audit_failures += 1;
+                }
+            });
+            Ok(fresh)
+        }
+        None => {
+            let t0 = Instant::now();
+            let fresh = real_worker_query(server, queries)?;
+            let dt = t0.elapsed().as_nanos() as u64;
+            let flag_after = server.verif_comm_ref().get().get_scheduling_flag();
+            let e = entry_of(&fresh, flag_after);
+            with_query_memo(|m| {
+                m.solve_nanos += dt;
+                m.table.insert(key, e);
+            });
+            Ok(fresh)
+        }
+    }
+}
